@@ -42,3 +42,38 @@ pub proof fn lemma_iter_step_set<K, V>(m: Map<K, V>, s: Seq<(&K, &V)>, idx: int,
         }
     }
 }
+
+// C02: the only transactions a reorg replay may hand to the node: dispute or penalty of a tracker that was flagged as
+// reorged and still exists
+pub open spec fn is_reorg_tx(trackers: Map<UUID, TrackerRow>, reorged: Set<UUID>, tx: Transaction) -> bool {
+    exists|u: UUID| reorged.contains(u) && #[trigger] trackers.contains_key(u) && (tx == trackers[u].dispute_tx || tx == trackers[u].penalty_tx)
+}
+// `c1` extends `c0` and every appended call carries a transaction satisfying `ok`
+pub open spec fn calls_extend(c0: Seq<(Transaction, SendReply)>, c1: Seq<(Transaction, SendReply)>, ok: spec_fn(Transaction) -> bool) -> bool {
+    &&& c1.len() >= c0.len()
+    &&& c1.subrange(0, c0.len() as int) == c0
+    &&& forall|i: int| c0.len() <= i < c1.len() ==> ok((#[trigger] c1[i]).0)
+}
+pub proof fn lemma_calls_extend_trans(c0: Seq<(Transaction, SendReply)>, c1: Seq<(Transaction, SendReply)>, c2: Seq<(Transaction, SendReply)>, ok: spec_fn(Transaction) -> bool)
+    requires calls_extend(c0, c1, ok), calls_extend(c1, c2, ok)
+    ensures calls_extend(c0, c2, ok)
+{
+    assert(c2.subrange(0, c0.len() as int) =~= c0) by {
+        assert forall|i: int| 0 <= i < c0.len() implies c2.subrange(0, c0.len() as int)[i] == c0[i] by {
+            assert(c2.subrange(0, c1.len() as int)[i] == c1[i]);
+            assert(c1.subrange(0, c0.len() as int)[i] == c0[i]);
+        }
+    }
+    assert forall|i: int| c0.len() <= i < c2.len() implies ok((#[trigger] c2[i]).0) by {
+        if i < c1.len() {
+            assert(c2.subrange(0, c1.len() as int)[i] == c1[i]);
+        }
+    }
+}
+// one `Carrier::send_transaction(tx)` extends the log by calls for `tx` only (or not at all when memoised)
+pub proof fn lemma_send_extends(c0: Seq<(Transaction, SendReply)>, c1: Seq<(Transaction, SendReply)>, tx: Transaction, ok: spec_fn(Transaction) -> bool)
+    requires ok(tx), c1 == c0 || sent_only(c0, c1, tx)
+    ensures calls_extend(c0, c1, ok)
+{
+    if c1 == c0 { assert(c1.subrange(0, c0.len() as int) =~= c0); }
+}
